@@ -30,6 +30,7 @@ from .introspect import (
     ExternalVarsVisitor,
     LocalVar,
     _function_name,
+    _is_call_on_result,
     get_assign_targets,
     python_builtin_names,
     getsource_class,
@@ -272,6 +273,15 @@ class InspectFunctionIndirect(object):
                 f"Expected FunctionType or class for {caller_fun_path}, got {type(caller_fun)}",
                 DDSErrorCode.UNSUPPORTED_CALLABLE_TYPE,
             )
+
+        if _is_call_on_result(node.func) and caller_fun_path in (
+            CPU.from_list(["dds", "keep"]),
+            CPU.from_list(["dds", "load"]),
+            CPU.from_list(["dds", "eval"]),
+        ):
+            # A method called on the value that a dds call returns (dds.load(p).upper()): the dds call is
+            # a call node of its own, this node is not a call to dds.
+            return None
 
         # Check if this is a call we should do something about.
         if caller_fun_path == CPU.from_list(["dds", "keep"]):
